@@ -224,8 +224,10 @@ def step(ctx, word):
 
 # ---- (B) hand-built streams x full option cross product ------------------------------------------------
 
-VAL = ["a", " ", '"', "'", "=", "<", ">", "`", "&", "é", "\n", "\t", "/"]
-TXT = ["x", "<", ">", "&", '"', "'", "-", "é", "\n", "]", "/", "!", "&lt;", "&amp;", "&#65;", "&copy"]
+# (É, U+00C9, is one of the characters whose named reference also exists in the legacy form without ';': written for an
+# output encoding that lacks it, what FOLLOWS it decides how the reference is read back)
+VAL = ["a", " ", '"', "'", "=", "<", ">", "`", "&", "é", "\n", "\t", "/", "É", ";"]
+TXT = ["x", "<", ">", "&", '"', "'", "-", "é", "\n", "]", "/", "!", "&lt;", "&amp;", "&#65;", "&copy", "É", ";"]
 TEXT_CTX = [("p", HTML_NS), ("title", HTML_NS), ("textarea", HTML_NS), ("style", HTML_NS), ("script", HTML_NS), ("xmp", HTML_NS),
             ("svg", SVG_NS), ("style", SVG_NS), ("title", SVG_NS), ("mi", MATHML_NS), ("pre", HTML_NS)]
 
